@@ -49,12 +49,15 @@ EpRootOK(p) == /\ Cardinality({ s \in Sq : p.b[s] # "." }) = 5 /\ ValidPosition(
 
 (* ---- castle: White to move, rights KQ; one black piece anywhere, optional blocker *)
 CastleGen(p) ==
-    LET kind == Variant                                       \* "n","b","r","q","p"
-        base == << <<"K", 4>>, <<"R", 0>>, <<"R", 7>>, <<"k", 60>> >>
-    IN \E a \in { a \in Sq : InSlice(a) }, bl \in ({<<".", 0>>} \cup { <<x, s>> : x \in {"P", "p", "N"}, s \in 1..23 }) :
+    LET kind == Variant                                       \* "n","b","r","q","p","k"
+        \* with Variant = "k" the roaming enemy piece is the enemy king itself (squares attacked by a king next to
+        \* the castling path), otherwise that king stays on e8
+        base == IF kind = "k" THEN << <<"K", 4>>, <<"R", 0>>, <<"R", 7>> >> ELSE << <<"K", 4>>, <<"R", 0>>, <<"R", 7>>, <<"k", 60>> >>
+    IN \E a \in { a \in Sq : InSlice(a) },
+          bl \in ({<<".", 0>>} \cup (IF kind = "k" THEN { <<"N", s>> : s \in {1, 2, 3, 5, 6} } ELSE { <<x, s>> : x \in {"P", "p", "N"}, s \in 1..23 })) :
           p = Mk0(PlaceAll(EmptyBoard, base \o << <<kind, a>> >> \o (IF bl[1] = "." THEN <<>> ELSE << bl >>)), "w", {"K", "Q"})
-CastleOK(p) == ValidPosition(p) /\ p.b[4] = "K" /\ p.b[0] = "R" /\ p.b[7] = "R" /\ p.b[60] = "k"
-               /\ Cardinality({ s \in Sq : p.b[s] # "." }) \in {5, 6}
+CastleOK(p) == ValidPosition(p) /\ p.b[4] = "K" /\ p.b[0] = "R" /\ p.b[7] = "R" /\ Cardinality({ s \in Sq : p.b[s] = "k" }) = 1
+               /\ Cardinality({ s \in Sq : p.b[s] # "." }) \in {4, 5, 6}
                /\ \A s \in Sq : (p.b[s] \in {"P", "p"}) => RankOf(s) \in 1..6
 
 (* ---- promo: white pawn on rank 7 (index 6) of file f *)
@@ -163,7 +166,27 @@ PromoMateGen(p) ==
              /\ p = Mk0(PlaceAll(EmptyBoard, men), "w", {})
 PromoMateOK(p) == ValidPosition(p) /\ p.b[At(PromoFile, 6)] = "P"
 
+(* ---- battery: two white heavy pieces doubled on the d- or e-file against a castled black king behind a pawn shield,
+   a black piece on the file's eighth-rank square and possibly a second defender on the back rank: the positions in
+   which exchanges on the back rank end in mate (or just fail to) - captures-only lines, where a search's horizon
+   extension works.  White to move. *)
+BatteryGen(p) ==
+    LET f == PromoFile
+        kinds == << <<"R", "R">>, <<"R", "Q">>, <<"Q", "R">>, <<"Q", "Q">> >>
+        shields == SUBSET {53, 54, 55}
+        d1s == <<"r", "q", "n", "b">>
+        d2s == <<-1, 56, 57, 58, 59>>
+    IN \E r1 \in 0..2 : \E r2 \in (r1 + 1)..3 : \E kd \in 1..4, bk \in {62, 63}, sh \in shields, i1 \in 1..4, i2 \in 1..5 :
+          /\ InSlice(Cardinality(sh) * 20 + i1 * 5 + i2 + r1 + r2)
+          /\ LET men == << <<"K", 6>>, <<kinds[kd][1], At(f, r1)>>, <<kinds[kd][2], At(f, r2)>>, <<"k", bk>>, <<d1s[i1], At(f, 7)>> >>
+                        \o [i \in 1..Cardinality(sh) |-> <<"p", SortedSeq(sh)[i]>>]
+                        \o (IF d2s[i2] = -1 THEN <<>> ELSE << <<"r", d2s[i2]>> >>)
+             IN /\ Distinct([i \in 1..Len(men) |-> men[i][2]])
+                /\ p = Mk0(PlaceAll(EmptyBoard, men), "w", {})
+BatteryOK(p) == ValidPosition(p)
+
 Gen(p) == CASE Family = "ep" -> EpGen(p) /\ EpRootOK(p)
+            [] Family = "battery" -> BatteryGen(p) /\ BatteryOK(p)
             [] Family = "promomate" -> PromoMateGen(p) /\ PromoMateOK(p)
             [] Family = "evade" -> EvadeGen(p) /\ EvadeOK(p)
             [] Family = "castle" -> CastleGen(p) /\ CastleOK(p)
